@@ -201,7 +201,7 @@ def make_spec(recipe):
         if rc["type"] in DECIMALS:
             cs["precision"], cs["scale"] = DECIMALS[rc["type"]]
         for k in ("use_dict", "dict_fallback_page", "dict_encoding_id", "encoding", "page_rows", "page_version", "def_plan", "idx_plan", "v2_compressed",
-                  "delta_shape", "write_stats", "dict_extra", "v1_trailing", "min_index_width"):
+                  "delta_shape", "write_stats", "dict_extra", "v1_trailing", "min_index_width", "dict_when_empty"):
             if k in rc and rc[k] is not None:
                 cs[k] = rc[k]
         if cs.get("dict_extra"):
@@ -210,6 +210,19 @@ def make_spec(recipe):
         expected[rc["name"]] = [expected_cell(rc["type"], v) for v in rows]
     spec = {"codec": recipe.get("codec", "UNCOMPRESSED"), "columns": cols, "row_groups": list(recipe["row_groups"]),
             "created_by": recipe.get("created_by", "refpq spec-level writer 1.0")}
+    if recipe.get("pandas_units"):
+        # pandas metadata as pyarrow / fastparquet attach it: the frame's resolution may be finer than the stored one, the reader must rescale
+        import json
+        pcols = []
+        for rc in recipe["columns"]:
+            u = recipe["pandas_units"].get(rc["name"])
+            if u is None:
+                continue
+            td = rc["type"].startswith("time_")
+            pcols.append({"name": rc["name"], "field_name": rc["name"], "pandas_type": "timedelta" if td else "datetime",
+                          "numpy_type": ("timedelta64[%s]" if td else "datetime64[%s]") % u, "metadata": None})
+        spec["kv"] = [("pandas", json.dumps({"index_columns": [], "column_indexes": [], "columns": pcols, "pandas_version": "2.1.0",
+                                             "creator": {"library": "refpq", "version": "1.0"}}))]
     return spec, expected
 
 
